@@ -53,6 +53,8 @@ def events(tr):
 
 class C03(Prop):
     id = 'C03'
+    k2_mask = {('rec', 'id'), ('rec', 'node'), ('rec', 'type'), ('rec', 'arr'), ('rec', 'exit'), ('rec', 'dest'), ('rec', '*'), ('ind', 'node'), ('ind', 'nrec'), ('ind', '*')}      # the slice of the engine state / records this property reads (DESIGN 7, table of slices)
+    k2_frames = 40
     num = 3
     regions = {'quick': [('core', 80), ('block', 100), ('routers', 60), ('renege', 60), ('renege_jockey', 60), ('schedpre_block', 40), ('preempt', 50), ('prio_reroute', 40),
                          ('sched', 40), ('schedpre', 40), ('sched_reroute', 30), ('slotted', 30), ('dyn', 30), ('ps', 20), ('all', 60)]}
